@@ -47,7 +47,8 @@ FORMS = ["contig", "strided", "expand", "chlast", "grad", "transposed", "typed"]
 class Ctx:
     """Hands out tracked argument tensors in adversarial forms; deterministic in (seed, forms)."""
 
-    def __init__(self, seed: int, D: int, forms: List[str], twice: bool):
+    def __init__(self, seed: int, D: int, forms: List[str], twice: bool, f64: bool = False):
+        self.f64 = bool(f64)  # every floating-point argument in double precision (dtype-specific no-op conversions)
         self.r = random.Random(seed)
         self.seed = seed
         self.D = D
@@ -86,6 +87,8 @@ class Ctx:
         """Return a tensor with the values of V laid out according to the next adversarial form; track its base."""
         form = self._form()
         floating = V.is_floating_point()
+        if floating and self.f64:
+            V = V.double()
         if not floating and form == "grad":
             form = "contig"
         if form == "strided" and V.ndim >= 1:
@@ -220,7 +223,7 @@ class Ctx:
     def scalar(self, value: float = 2.0, shape=()) -> Tensor:
         """A scalar parameter given as (tracked) 0-dim or 1-element float32 tensor, e.g. ``norm``, ``value``, ``min``."""
         self._next()
-        t = torch.full(tuple(shape), float(value), dtype=torch.float32)
+        t = torch.full(tuple(shape), float(value), dtype=torch.float64 if self.f64 else torch.float32)
         self._track(f"scalar#{len(self.tracked)}:contig", t)
         return t
 
@@ -244,6 +247,19 @@ class Ctx:
         t = torch.tensor([1.0, 2.0, 0.5][: self.D]) if k == 3 else torch.tensor(2.0)
         self._track(f"spacing#{len(self.tracked)}:contig", t)
         return t
+
+    def bspline_kernel(self, stride: int = 2, one_d: bool = False):
+        """Precomputed cubic B-spline interpolation weights given by the caller (tracked): (stride, 4), or 1-D for stride 1."""
+        from deepali.core import bspline as U_
+
+        self._next()
+        w = U_.cubic_bspline_interpolation_weights(1 if one_d else stride).clone()
+        if one_d:
+            w = w.reshape(-1).clone()
+        if self.f64:
+            w = w.double()
+        self._track(f"bkernel#{len(self.tracked)}:contig", w)
+        return w
 
     def patches(self) -> Tensor:
         return self._wrap("patches", gen.rand(self._next(), (self.N, 3, 4, 4, 3), -0.9, 0.9))
@@ -941,7 +957,7 @@ class FrameWorld:
         fn = frame_api.REGISTRY.get(name)
         if fn is None:
             return StepResult("skipped")
-        c = Ctx(op["seed"], op.get("D", self.D), op.get("forms", ["contig"]), bool(op.get("twice")))
+        c = Ctx(op["seed"], op.get("D", self.D), op.get("forms", ["contig"]), bool(op.get("twice")), bool(op.get("f64")))
         k = op.get("interrupt")
         # the recipe creates its (tracked) arguments while running; the context keeps a pristine clone of
         # every argument base taken at creation time, against which the bases are compared afterwards
@@ -1214,7 +1230,10 @@ class _Gen:
         sub = [n for i, n in enumerate(names) if (i + self.sc["api_phase"]) % self.sc["api_mod"] == 0] or names
         name = rng.choice(sub if rng.chance(0.7) else names)
         forms = [rng.choice(FORMS) for _ in range(rng.randint(1, 3))]
-        return {"op": "func", "fn": name, "seed": rng.subseed(), "D": rng.weighted([(2, 3), (3, 1)]), "forms": forms, "twice": bool(rng.chance(0.25))}
+        op = {"op": "func", "fn": name, "seed": rng.subseed(), "D": rng.weighted([(2, 3), (3, 1)]), "forms": forms, "twice": bool(rng.chance(0.25))}
+        if rng.chance(0.12):
+            op["f64"] = True
+        return op
 
     def gen_accessor(self, rng):
         oid = self.pick(rng, lambda k, v: self.meta[k]["tag"] in ACC)
